@@ -5,7 +5,7 @@
    source is listed in Gen/SetUses.v (regenerated) and has to be declared
    (Gen/SetUsesOk.v).  The model takes each iteration order from an oracle
    [perm] about which only [perm_ok] (it returns a permutation) is known. *)
-From HyV Require Import Base.Text Scope.Sorting Scope.SetDecl Scope.OuterVars Scope.Finalize Gen.SetUses Gen.SetUsesOk.
+From HyV Require Import Base.Text Scope.Sorting Scope.SetDecl Scope.OuterVars Scope.Finalize Scope.Machine Scope.MachineFacts Gen.SetUses Gen.SetUsesOk.
 From Coq Require Import Permutation.
 
 (* sorting a permutation is canonical: what every sorted(<set>) in the compiler rests on *)
@@ -28,6 +28,19 @@ Theorem C13_finalize_perm_independent : forall perm1 perm2, perm_ok perm1 -> per
     = finalize_names perm2 finalize_order assignments nonlocal_vars.
 Proof. exact finalize_sorted_perm_independent. Qed.
 Print Assumptions C13_finalize_perm_independent.
+
+(* compile_perm_independent for the scope machine (all four scope classes, every event sequence of any
+   length): the state after any run, hence every renamed node, every finalize result and every error,
+   is the same for any two iteration orders; with the Nonlocal names sorted, so is ResolveOuterVars. *)
+Theorem C13_scope_machine_perm_independent : forall perm1 perm2, perm_ok perm1 -> perm_ok perm2 ->
+  forall evs st, run perm1 finalize_order evs st = run perm2 finalize_order evs st.
+Proof. exact run_perm_independent. Qed.
+Print Assumptions C13_scope_machine_perm_independent.
+
+Theorem C13_scope_output_perm_independent_when_sorted : forall perm1 perm2, perm_ok perm1 -> perm_ok perm2 ->
+  forall evs, scope_output perm1 finalize_order OSorted evs = scope_output perm2 finalize_order OSorted evs.
+Proof. exact scope_output_perm_independent. Qed.
+Print Assumptions C13_scope_output_perm_independent_when_sorted.
 
 (* visit_OuterVar: perm-independent iff the set `defined` is sorted before it becomes Nonlocal.names;
    stated for both shapes so that it holds before and after a repair of the source.  Which case the
